@@ -64,6 +64,14 @@ fn run<F: Elem>(case: &LinearCase, obs: &mut Obs) {
     let y: Array2<F> = build(&c.y, p, c.fortran);
     let n = x.nrows();
     obs.class_if(n == 1, "single_training_row");
+    obs.class(match case.method {
+        LinMethod::Standard { with_mean: true, with_std: true } => "method_standard",
+        LinMethod::Standard { with_mean: false, with_std: true } => "method_standard_no_mean",
+        LinMethod::Standard { with_mean: true, with_std: false } => "method_standard_no_std",
+        LinMethod::Standard { with_mean: false, with_std: false } => "method_standard_neither",
+        LinMethod::MinMax { .. } => "method_min_max",
+        LinMethod::MaxAbs => "method_max_abs",
+    });
     let distinct_rows = c.x.iter().any(|r| r != &c.x[0]);
     obs.class_if(n >= 2 && !distinct_rows, "all_training_rows_equal");
     obs.class_if(distinct_rows, "two_distinct_training_rows");
